@@ -942,10 +942,11 @@ func hsPanicSite() string {
 	return "unknown"
 }
 
-// hsExchange runs NewMTProto + CreateConnection of the real client against srv, armed with either
-// the conformant conversation (secrets) or prepared replies. probe: after a successful exchange
+// hsExchange runs NewMTProto + CreateConnection of the real client against a fresh listener, armed
+// with either the conformant conversation (secrets) or prepared replies. probe: after a successful exchange
 // issue one encrypted request and let the server try to read it.
-func hsExchange(srv *hsServer, d *hsDraws, pub *rsa.PublicKey, secrets *hsSecrets, replies [][]byte, probe bool) *hsRun {
+func hsExchange(d *hsDraws, pub *rsa.PublicKey, secrets *hsSecrets, replies [][]byte, probe bool) *hsRun {
+	srv := hsListen()
 	run := &hsRun{Addr: srv.Addr()}
 	run.Srv = srv.arm(secrets, replies)
 	store := &hsStore{}
@@ -1013,21 +1014,32 @@ func hsExchange(srv *hsServer, d *hsDraws, pub *rsa.PublicKey, secrets *hsSecret
 		case <-time.After(3 * time.Second):
 		}
 	}
-	// the client goes first: were the server to close the connection, the client's read loop would
-	// see EOF and reconnect on its own
+	// Teardown without MTProto.Disconnect: Disconnect cancels the context, which closes the socket
+	// under the feet of the client's read loop, and that loop panics (kills the process) when the
+	// read error wins the race against the cancellation. Instead the server goes away: the listener
+	// is closed first (so that the reconnect the client's loop attempts on EOF fails and the loop
+	// ends), then each connection is half-closed (the client reads EOF; nothing it sent is discarded,
+	// so no reset), and the server keeps reading until the client has closed its side.
+	srv.ln.Close()
 	srv.mu.Lock()
 	end := srv.connEnd
+	cs := append([]net.Conn{}, srv.conns...)
 	srv.mu.Unlock()
-	_ = m.Disconnect()
-	select {
-	case <-end:
-	case <-time.After(2 * time.Second):
-		srv.mu.Lock()
-		run.Srv.Notes = append(run.Srv.Notes, "client did not close its connection within 2s of Disconnect")
-		srv.mu.Unlock()
+	for _, c := range cs {
+		if tc, ok := c.(*net.TCPConn); ok {
+			_ = tc.CloseWrite()
+		}
+	}
+	for range cs {
+		select {
+		case <-end:
+		case <-time.After(2 * time.Second):
+			srv.mu.Lock()
+			run.Srv.Notes = append(run.Srv.Notes, "client did not close its connection within 2s of the server's EOF")
+			srv.mu.Unlock()
+		}
 	}
 	srv.closeConns()
-
 	store.mu.Lock()
 	run.Stores = append([]session.Session{}, store.Stores...)
 	store.mu.Unlock()
@@ -1163,4 +1175,50 @@ func hsRefRSACipher(pub *rsa.PublicKey, pq []byte, p, q uint64, nonce, serverNon
 	block := make([]byte, 255)
 	copy(block, append(hsSha1(w.b), w.b...))
 	return new(big.Int).Exp(new(big.Int).SetBytes(block), big.NewInt(int64(pub.E)), pub.N)
+}
+
+// hsCase: one exchange's client draws and server secrets.
+type hsCase struct {
+	D     hsDraws
+	S     hsSecrets
+	Pad16 []byte
+}
+
+// hsRandomCase: a conformant server's secrets and a client's draws from the run's PRNG.
+func hsRandomCase(r *Rand, key *rsa.PrivateKey) *hsCase {
+	c := &hsCase{}
+	c.D.Nonce = r.Bytes(16)
+	c.D.NewNonce = r.Bytes(32)
+	c.D.B = r.Bytes(256)
+	c.D.PadSeed = int64(r.U64() >> 1)
+	c.S.Key = key
+	c.S.ServerNonce = r.Bytes(16)
+	// the client's Pollard-rho (big.Int, bit-serial multiplication) costs ~0.3 s on a 63-bit product:
+	// full-size primes in one exchange out of eight, 12..28 bits otherwise
+	bits := func() int {
+		if r.Intn(8) == 0 {
+			return 32
+		}
+		return 12 + r.Intn(17)
+	}
+	p, q := hsPrime32(r, bits()), hsPrime32(r, bits())
+	for p == q {
+		q = hsPrime32(r, bits())
+	}
+	if p > q {
+		p, q = q, p
+	}
+	c.S.P, c.S.Q = p, q
+	c.S.G = int32(2 + r.Intn(6))
+	c.S.A = new(big.Int).SetBytes(r.Bytes(256))
+	c.S.DhPrime = hsTelegramPrime()
+	c.S.ServerTime = int32(1600000000 + r.Intn(100000000))
+	c.S.Pad = r.Bytes(16)
+	c.S.Minimal = r.Intn(3) == 0
+	if r.Intn(3) == 0 {
+		for i := r.Intn(3) + 1; i > 0; i-- {
+			c.S.ExtraFps = append(c.S.ExtraFps, r.U64())
+		}
+	}
+	return c
 }
